@@ -893,6 +893,18 @@ func (w *world) invariants(step int) {
 
 	idle := w.idle()
 	pendingOpens := [2]int{}
+	// A pending call of a side whose multiplexer reader is parked in the middle
+	// of a data message's payload (the carrier stalled mid-message) is blocked
+	// under a specific, separately identifiable circumstance: the class (and so
+	// the violation key) says so, so that this circumstance and any other hang
+	// never share a key.
+	stalled := [2]bool{w.wires[1].readerMidPayload(), w.wires[0].readerMidPayload()}
+	cls := func(base string, side int) string {
+		if stalled[side] {
+			return base + "@carrier-stalled-mid-data-message"
+		}
+		return base
+	}
 	for _, c := range w.calls {
 		if c.done {
 			continue
@@ -902,18 +914,18 @@ func (w *world) invariants(step int) {
 		// C25: "Every blocked read, write, open or accept returns once ... the
 		// multiplexer is closed".
 		if rwoa && closed[s] {
-			w.violate("C25", "blocked-after-mux-closed:"+c.kind, fmt.Sprintf("%s is still blocked although multiplexer %s is closed", c, sideName[s]), step)
+			w.violate("C25", cls("blocked-after-mux-closed:"+c.kind, s), fmt.Sprintf("%s is still blocked although multiplexer %s is closed", c, sideName[s]), step)
 			continue
 		}
 		switch c.kind {
 		case "open":
 			pendingOpens[s]++
 			if c.cancelled {
-				w.violate("C25", "blocked-after-cancel:open", fmt.Sprintf("%s is still blocked although its context was cancelled", c), step)
+				w.violate("C25", cls("blocked-after-cancel:open", s), fmt.Sprintf("%s is still blocked although its context was cancelled", c), step)
 			}
 		case "accept":
 			if c.cancelled {
-				w.violate("C25", "blocked-after-cancel:accept", fmt.Sprintf("%s is still blocked although its context was cancelled", c), step)
+				w.violate("C25", cls("blocked-after-cancel:accept", s), fmt.Sprintf("%s is still blocked although its context was cancelled", c), step)
 			}
 		case "read":
 			st := w.streams[c.id]
@@ -921,25 +933,25 @@ func (w *world) invariants(step int) {
 			switch {
 			case me.rdl.elapsed(now):
 				// "returns once its deadline passes"
-				w.violate("C25", "blocked-after-deadline:read", fmt.Sprintf("%s is still blocked although its read deadline (%s) has passed", c, me.rdl.key(now)), step)
+				w.violate("C25", cls("blocked-after-deadline:read", s), fmt.Sprintf("%s is still blocked although its read deadline (%s) has passed", c, me.rdl.key(now)), step)
 			case me.cCalled:
 				// "its stream ... is closed"
-				w.violate("C25", "blocked-after-close:read", fmt.Sprintf("%s is still blocked although Close was called on the stream", c), step)
+				w.violate("C25", cls("blocked-after-close:read", s), fmt.Sprintf("%s is still blocked although Close was called on the stream", c), step)
 			case (peer.cCalled || peer.cwCalled) && w.wires[1-s].idle() && !closed[1-s]:
 				// "or the peer closes the stream" (for a reader a half-close
 				// of the writing direction ends the stream as well).
-				w.violate("C25", "blocked-after-peer-close:read", fmt.Sprintf("%s is still blocked although the peer closed (or half-closed) the stream and everything it sent was delivered", c), step)
+				w.violate("C25", cls("blocked-after-peer-close:read", s), fmt.Sprintf("%s is still blocked although the peer closed (or half-closed) the stream and everything it sent was delivered", c), step)
 			case c.n > 0 && w.wires[1-s].idle() && peer.confirmed > me.read:
 				// C23 "without loss": bytes reported written and fully
 				// delivered must be readable.
-				w.violate("C23", "lost-bytes", fmt.Sprintf("%s is blocked although the peer reported %d bytes written, only %d were read and nothing is in flight", c, peer.confirmed, me.read), step)
+				w.violate("C23", cls("lost-bytes", s), fmt.Sprintf("%s is blocked although the peer reported %d bytes written, only %d were read and nothing is in flight", c, peer.confirmed, me.read), step)
 				// C25 "A stream whose reader stops consuming never prevents
 				// data from flowing on other streams": the same situation is a
 				// head-of-line block when another stream of this side holds
 				// delivered data nobody is reading.
 				for _, other := range w.streams {
 					if other.id != c.id && other.side[s].readCall == nil && other.side[1-s].confirmed > other.side[s].read {
-						w.violate("C25", "head-of-line:read", fmt.Sprintf("%s is blocked although its %d bytes were delivered, while stream %d has unread data and no reader", c, peer.confirmed-me.read, other.id), step)
+						w.violate("C25", cls("head-of-line:read", s), fmt.Sprintf("%s is blocked although its %d bytes were delivered, while stream %d has unread data and no reader", c, peer.confirmed-me.read, other.id), step)
 						break
 					}
 				}
@@ -949,18 +961,18 @@ func (w *world) invariants(step int) {
 			me, peer := &st.side[s], &st.side[1-s]
 			switch {
 			case me.wdl.elapsed(now):
-				w.violate("C25", "blocked-after-deadline:write", fmt.Sprintf("%s is still blocked although its write deadline (%s) has passed", c, me.wdl.key(now)), step)
+				w.violate("C25", cls("blocked-after-deadline:write", s), fmt.Sprintf("%s is still blocked although its write deadline (%s) has passed", c, me.wdl.key(now)), step)
 			case me.cCalled || me.cwCalled:
-				w.violate("C25", "blocked-after-close:write", fmt.Sprintf("%s is still blocked although Close/CloseWrite was called on the stream", c), step)
+				w.violate("C25", cls("blocked-after-close:write", s), fmt.Sprintf("%s is still blocked although Close/CloseWrite was called on the stream", c), step)
 			case peer.cCalled && w.wires[1-s].idle() && !closed[1-s]:
-				w.violate("C25", "blocked-after-peer-close:write", fmt.Sprintf("%s is still blocked although the peer closed the stream and its close was delivered", c), step)
+				w.violate("C25", cls("blocked-after-peer-close:write", s), fmt.Sprintf("%s is still blocked although the peer closed the stream and its close was delivered", c), step)
 			case idle && !closed[1-s] && !peer.cCalled && w.cfg.W > 0 && me.confirmed+len(c.data)-peer.read <= w.cfg.W:
 				// "A stream whose reader stops consuming never prevents data
 				// from flowing on other streams": with nothing in flight in
 				// either direction the only legitimate reason for a Write to
 				// be blocked is that the peer's receive window for THIS stream
 				// cannot take the data, i.e. unread bytes would exceed it.
-				w.violate("C25", "write-stalled-with-window", fmt.Sprintf("%s is blocked although nothing is in flight and the peer's window has room: %d reported + %d offered - %d read by peer <= window %d", c, me.confirmed, len(c.data), peer.read, w.cfg.W), step)
+				w.violate("C25", cls("write-stalled-with-window", s), fmt.Sprintf("%s is blocked although nothing is in flight and the peer's window has room: %d reported + %d offered - %d read by peer <= window %d", c, me.confirmed, len(c.data), peer.read, w.cfg.W), step)
 			}
 		}
 	}
